@@ -209,14 +209,6 @@ Qed.
 
 (* ---------------------------------------------------------------------------------------------- *)
 (* documents *)
-Lemma set_pref_ok : forall x pr, db_ok x -> db_ok (set_pref x pr) /\ den (set_pref x pr) = den x.
-Proof.
-  intros x pr [A B]. split.
-  - split; [exact A|]. cbn [set_pref d_quads]. apply Forall_forall. intros q Hq. rewrite Forall_forall in B.
-    apply (quad_ok_frame x); [reflexivity | reflexivity | apply B; exact Hq].
-  - unfold den. cbn [set_pref d_quads]. apply map_ext. intro q. apply den_quad_frame; reflexivity.
-Qed.
-
 Lemma ttl_main : forall (doc : list item) (x : db),
   wf_doc_ttl doc = true -> db_ok x -> pref_ok (d_pref x) ->
   next_id (d_dict x) + 4 * N.of_nat (length (quads_from (d_pref x) doc)) <= QBIT ->
